@@ -174,6 +174,11 @@ func TestVerifC15Manager(t *testing.T) {
 	n := vEnvInt("VERIF_N", 150)
 	// Manager.Shutdown waits for one tick of every registered section's save watcher
 	config.ConfigSaveInterval = 5 * time.Millisecond
+	for _, kv := range os.Environ() {
+		if strings.HasPrefix(kv, "CLUSTER_") {
+			os.Unsetenv(strings.SplitN(kv, "=", 2)[0])
+		}
+	}
 	os.Setenv("VERIF_IDBASE", fmt.Sprint(vEnvInt("VERIF_IDBASE", 0)+15*10000000))
 	out := newVOut("C15_manager", "From V Require Import Model.C15_Config Model.C15_Check.\nFrom Coq Require Import String List ZArith NArith.\nImport ListNotations.",
 		"mcase", "Definition R := Eval vm_compute in mfailing cases.\nOpen Scope N_scope.\nPrint R.")
@@ -211,8 +216,13 @@ func TestVerifC15Manager(t *testing.T) {
 			cases = append(cases, vc15MGen(r))
 		}
 	}
+	nviol := map[string]int{}
 	for _, c := range cases {
 		violation := func(sig, detail string) {
+			nviol[sig]++
+			if nviol[sig] > 2 { // one line per violation is enough to fail the run; keep the report short
+				return
+			}
 			b, _ := json.Marshal(map[string]interface{}{"signature": sig, "detail": detail, "case": map[string]interface{}{"input": c}})
 			fmt.Printf("VERIF-DIRECT-VIOLATION %s\n", b)
 		}
